@@ -176,9 +176,10 @@ struct Cfg
     int alias = 1;       // 0 dst==src, 1 dst other, 2 dst NULL (extendPol: 0 output==input, 1 distinct)
     unsigned threads = 1;
     int input = 0;       // 0 uniform columns, 1 boundary / non-canonical, 2 identity matrix (ncols = n)
+    int preuse = 0;      // 1: the object has already served an extendPol (same or larger N) and a transform before this call
     std::string json() const
     {
-        return J().str("op", KN[kind]).i("S", S).i("d", d).i("e", e).u("ncols", ncols).h("nphase", nphase).h("nblock", nblock).i("buffer", buffer).i("alias", alias).u("threads", threads).i("input", input).done();
+        return J().str("op", KN[kind]).i("S", S).i("d", d).i("e", e).u("ncols", ncols).h("nphase", nphase).h("nblock", nblock).i("buffer", buffer).i("alias", alias).u("threads", threads).i("input", input).i("preuse", preuse).done();
     }
     // configuration class for violation keys: everything but data
     std::string cls() const
@@ -188,7 +189,7 @@ struct Cfg
         int dd = kind == K_EXT ? e : d;
         if (effp < 1 || dd <= 0) effp = 1; else if (effp > (uint64_t)dd) effp = dd;
         uint64_t effb = nblock < 1 ? 1 : (nblock > ncols ? ncols : nblock);
-        return std::string(KN[kind]) + ":S" + std::to_string(S) + ":d" + std::to_string(d) + (kind == K_EXT ? ":e" + std::to_string(e) : "") + ":phase" + (effp % 2 ? "odd" : "even") + ":blocks" + (effb > 1 ? "N" : "1") + ":buf" + std::to_string(buffer) + ":alias" + std::to_string(alias) + ":in" + std::to_string(input) + (ncols == 0 ? ":ncols0" : "") + "(nphase=" + sm(nphase) + ",nblock=" + sm(nblock) + ",ncols=" + sm(ncols) + ",thr=" + std::to_string(threads) + ")";
+        return std::string(KN[kind]) + ":S" + std::to_string(S) + ":d" + std::to_string(d) + (kind == K_EXT ? ":e" + std::to_string(e) : "") + ":phase" + (effp % 2 ? "odd" : "even") + ":blocks" + (effb > 1 ? "N" : "1") + ":buf" + std::to_string(buffer) + ":alias" + std::to_string(alias) + ":in" + std::to_string(input) + (preuse ? ":preused" : "") + (ncols == 0 ? ":ncols0" : "") + "(nphase=" + sm(nphase) + ",nblock=" + sm(nblock) + ",ncols=" + sm(ncols) + ",thr=" + std::to_string(threads) + ")";
     }
 };
 
@@ -248,6 +249,18 @@ struct Engine
         return io;
     }
 
+    // earlier use of the object: an extendPol with N = this call's size (or the object's full domain) and a forward transform
+    static void preuse(NTT_Goldilocks &ntt, const Cfg &c)
+    {
+        bool rec = g_record;
+        g_record = false;
+        uint64_t n1 = c.kind == K_EXT ? (uint64_t)1 << c.S : (uint64_t)1 << c.d;
+        std::vector<uint64_t> a(2 * n1 * 2), b(2 * n1 * 2);
+        for (size_t i = 0; i < a.size(); i++) a[i] = 0x1234567 * (i + 1);
+        ntt.extendPol((El *)b.data(), (El *)a.data(), 2 * n1, n1, 2);
+        ntt.NTT((El *)b.data(), (El *)a.data(), n1, 2);
+        g_record = rec;
+    }
     // execute one configuration against the oracle; returns true if it held
     bool run(const Cfg &c, Report &rp, NTT_Goldilocks *shared = nullptr, const char *keyprefix = nullptr)
     {
@@ -292,7 +305,7 @@ struct Engine
             if (c.buffer) { bufb.reset(new ExactBuf(n * ncols_alloc, c.nphase & 1)); for (uint64_t i = 0; i < n * ncols_alloc; i++) bufb->p[i] = SENT; }
             std::unique_ptr<NTT_Goldilocks> own;
             NTT_Goldilocks *ntt = shared;
-            if (!ntt) { own.reset(new NTT_Goldilocks((uint64_t)1 << c.S, c.threads)); ntt = own.get(); }
+            if (!ntt) { own.reset(new NTT_Goldilocks((uint64_t)1 << c.S, c.threads)); ntt = own.get(); if (c.preuse) preuse(*ntt, c); }
             El *d = c.alias == 0 ? src.el() : (c.alias == 1 ? dstb->el() : NULL);
             El *bf = c.buffer ? bufb->el() : NULL;
             if (c.kind == K_NTT) ntt->NTT(d, src.el(), n, ncols, bf, c.nphase, c.nblock);
@@ -318,13 +331,15 @@ struct Engine
             bool inplace = c.alias == 0;
             ExactBuf in(inplace ? next * ncols : n * ncols, (c.threads + c.e) & 1);
             memcpy(in.p, io->in.data(), n * ncols * 8);
+#if !defined(VERIF_PLAIN_MALLOC)
             for (uint64_t i = n * ncols; i < in.n; i++) in.p[i] = SENT + i; // garbage beyond the input rows must not matter
+#endif      // memcheck / fill-differential builds leave those rows uninitialised: a read that matters is then seen by the tool
             std::unique_ptr<ExactBuf> outb, bufb;
             if (!inplace) { outb.reset(new ExactBuf(next * ncols, !((c.threads + c.e) & 1))); for (uint64_t i = 0; i < next * ncols; i++) outb->p[i] = SENT; }
             if (c.buffer) { bufb.reset(new ExactBuf(next * ncols, c.nphase & 1)); for (uint64_t i = 0; i < next * ncols; i++) bufb->p[i] = SENT; }
             std::unique_ptr<NTT_Goldilocks> own;
             NTT_Goldilocks *ntt = shared;
-            if (!ntt) { own.reset(new NTT_Goldilocks((uint64_t)1 << c.S, c.threads)); ntt = own.get(); }
+            if (!ntt) { own.reset(new NTT_Goldilocks((uint64_t)1 << c.S, c.threads)); ntt = own.get(); if (c.preuse) preuse(*ntt, c); }
             El *o = inplace ? in.el() : outb->el();
             ntt->extendPol(o, in.el(), next, n, ncols, c.buffer ? bufb->el() : NULL, c.nphase, c.nblock);
             g_record = false;
@@ -362,6 +377,7 @@ struct Engine
             if (c.kind == K_EXT && effp % 2 == 0 && effb == 1 && c.e > c.d) rp.cls("cfg:extend_onsite_zero_padding");
             if (c.input == 2) rp.cls("cfg:identity_matrix_input");
             if (c.input == 1) rp.cls("cfg:boundary_input");
+            if (c.preuse) rp.cls("cfg:object_used_before");
         }
         return ok;
     }
@@ -400,6 +416,7 @@ static void build_grid(std::vector<Cfg> &out, int kind, int Smax, int dmin_large
                                 c.kind = kind; c.S = S; c.d = d; c.ncols = ncols; c.nphase = ph; c.nblock = nb; c.buffer = buffer; c.alias = alias;
                                 c.threads = THREADS_SET[hsh / 7 % 7];
                                 c.input = (hsh / 49) % 4 == 0 ? 1 : 0;
+                                c.preuse = (hsh / 343) % 6 == 0 && d >= 0 ? 1 : 0;
                                 out.push_back(c);
                             }
             }
@@ -476,6 +493,7 @@ static void build_ext_grid(std::vector<Cfg> &out, int emax, int elarge_min, int 
                                     c.kind = K_EXT; c.d = a; c.e = e; c.S = a + sx * (1 + (int)(hsh % 2)); c.ncols = ncols; c.nphase = ph; c.nblock = nb; c.buffer = buffer; c.alias = alias;
                                     c.threads = THREADS_SET[hsh / 7 % 7];
                                     c.input = (hsh / 49) % 4 == 0 ? 1 : 0;
+                                    c.preuse = (hsh / 343) % 6 == 0 ? 1 : 0;
                                     out.push_back(c);
                                 }
             }
